@@ -46,6 +46,7 @@ type c14Model struct {
 	blocks map[uint64]*c14Block
 	byHash map[string]uint64
 	height uint64
+	off    uint64 // every height of the scenario is this much above the small numbers the operations name
 	state  []byte // nil = never written
 	meta   map[string][]byte
 }
@@ -56,6 +57,7 @@ func newC14Model() *c14Model {
 
 func (m *c14Model) clone() *c14Model {
 	n := newC14Model()
+	n.off = m.off
 	for k, v := range m.blocks {
 		n.blocks[k] = v
 	}
@@ -150,7 +152,8 @@ func c14Verify(ctx context.Context, st store.Store, m *c14Model) string {
 	if h != m.height {
 		return fmt.Sprintf("Height()=%d model=%d", h, m.height)
 	}
-	for ht := uint64(1); ht <= c14Heights; ht++ {
+	for k := uint64(1); k <= c14Heights; k++ {
+		ht := m.off + k
 		mb := m.blocks[ht]
 		hdr, data, err := st.GetBlockData(ctx, ht)
 		hdr2, err2 := st.GetHeader(ctx, ht)
@@ -233,14 +236,14 @@ func c14Verify(ctx context.Context, st store.Store, m *c14Model) string {
 func c14Apply(ctx context.Context, st store.Store, m *c14Model, op sim.Op) error {
 	switch op.K {
 	case "save":
-		h := uint64(op.A%c14Heights) + 1
+		h := m.off + uint64(op.A%c14Heights) + 1
 		b := c14MakeBlock(h, op.B%c14Variants, op.C%4)
 		err := st.SaveBlockData(ctx, b.hdr, b.data, &b.sig)
 		m.blocks[h] = b
 		m.byHash[string(b.hdr.Hash())] = h
 		return err
 	case "setheight":
-		h := uint64(op.A % (c14Heights + 2))
+		h := m.off + uint64(op.A%(c14Heights+2))
 		err := st.SetHeight(ctx, h)
 		if h > m.height {
 			m.height = h
@@ -299,6 +302,8 @@ func c14Run(t *testing.T, s *sim.Scn) *sim.Outcome {
 	}
 	st := open()
 	m := newC14Model()
+	// heights of every magnitude (the encodings of a height must round-trip whatever its size)
+	m.off = []uint64{0, 0, 0, 250, 1 << 32, 1 << 49, 1<<56 - 4, 1 << 62, ^uint64(0) - 16}[int(s.Cfg["hoff"])%9]
 	muts, crashes, reopens, overwrites, diskerrs := 0, 0, 0, 0, 0
 	for i, op := range s.Ops {
 		switch op.K {
@@ -380,7 +385,7 @@ func c14Run(t *testing.T, s *sim.Scn) *sim.Outcome {
 			}
 		default:
 			if op.K == "save" {
-				if _, ok := m.blocks[uint64(op.A%c14Heights)+1]; ok {
+				if _, ok := m.blocks[m.off+uint64(op.A%c14Heights)+1]; ok {
 					overwrites++
 				}
 			}
@@ -421,7 +426,7 @@ func c14Run(t *testing.T, s *sim.Scn) *sim.Outcome {
 }
 
 func c14Gen(r *rand.Rand, tier string) *sim.Scn {
-	s := &sim.Scn{Cfg: map[string]int64{}}
+	s := &sim.Scn{Cfg: map[string]int64{"hoff": r.Int64N(9)}}
 	if tier == "thorough" && r.IntN(50) == 0 {
 		s.Cfg["badger"] = 1
 	}
